@@ -32,6 +32,8 @@ KeyOf3 == <<<<1, 2, 3>>, <<1, 2, 1>>>>
 KeyOf7 == <<<<1, 2, 3, 3, 4, 4, 5>>, <<1, 2, 1, 1, 1, 1, 1>>>>
 \* argument 8 is (13,): the executor's classes raise in __init__ for it (a construction that fails)
 KeyOf8 == <<<<1, 2, 3, 3, 4, 4, 5, 6>>, <<1, 2, 1, 1, 1, 1, 1, 1>>>>
+\* argument 9 is (x=[1, 2]): a keyword argument whose value is unhashable
+KeyOf9 == <<<<1, 2, 3, 3, 4, 4, 5, 6, 7>>, <<1, 2, 1, 1, 1, 1, 1, 1, 2>>>>
 BadArgs == {8}
 
 TC == 1..NTC
